@@ -13,6 +13,7 @@ INT = ('int',)
 BOOL = ('bool',)
 REAL = ('real',)
 BYTES = ('bytes',)
+BYTEARRAY = ('bytes', 'array')     # a bytearray that the code only reads: same sort as bytes, distinct for isinstance
 STR = ('str',)
 NONE = ('none',)
 ANY = ('any',)
@@ -342,6 +343,8 @@ def coerce(v, to):
         return empty_dict(to)
     if fr[0] == 'exc' and to[0] == 'exc':
         return V(to, v.t)
+    if fr[0] == 'bytes' and to[0] == 'bytes':
+        return V(to, v.t)          # bytes <-> bytearray: the same sequence of octets
     raise TypeMismatch('cannot use a value of type %s where %s is expected' % (mangle(fr), mangle(to)))
 
 
@@ -374,7 +377,7 @@ def const(ty, name):
 
 # ---------------------------------------------------------------- type annotation parsing
 
-_SIMPLE = {'int': INT, 'bool': BOOL, 'float': REAL, 'bytes': BYTES, 'str': STR, 'None': NONE, 'Any': ANY,
+_SIMPLE = {'int': INT, 'bool': BOOL, 'float': REAL, 'bytes': BYTES, 'bytearray': BYTEARRAY, 'str': STR, 'None': NONE, 'Any': ANY,
            'object': ANY}
 
 
